@@ -38,7 +38,7 @@ void *heap_alloc(size_t n, size_t al) {
     size_t rn = (n + 15) & ~(size_t)15;
     if (u + rn + RZ > HEAP_BASE + HEAP_SIZE) harness_limit("simulated heap arena exhausted");
     memset((void *)(u - RZ), 0xFA, RZ);
-    memset((void *)u, 0xCD, rn);
+    memset((void *)u, G.heap_fill, rn);
     memset((void *)(u + rn), 0xFB, RZ);
     if (rn > n) memset((void *)(u + n), 0xFB, rn - n);
     bump = u + rn + RZ;
@@ -108,6 +108,7 @@ void heap_report_leaks_and_fail() {
 } // namespace rt
 
 namespace dsim {
+void set_heap_fill(int byte) { rt::G.heap_fill = byte & 0xff; }
 void exclude_alloc_fn(const void *lo, const void *hi) {
     for (int i = 0; i < rt::n_excl; i++) if (rt::excl[i].lo == (uintptr_t)lo) return;
     if (rt::n_excl < 8) { rt::excl[rt::n_excl].lo = (uintptr_t)lo; rt::excl[rt::n_excl].hi = (uintptr_t)hi; rt::n_excl++; }
